@@ -3,7 +3,7 @@ CONSTANTS HW = 7
           Anchors = {1, 2, 3}
           NMax = 6
           MCMod = 84
-          GenMod = 84
+          GenMod = 336
           TPad = 2
 INIT Init
 NEXT EvalGen
